@@ -452,9 +452,9 @@ def run(rep, tier="quick", replay=None, evidence_dir=None):
     c03.run(sub, tier=tier, collect_only=True)
     n3 = 0
     for o in sub.obligations:
-        if o["rule"] == "C03.R3":
+        if o["rule"] in ("C03.R3", "C03.R8"):
             n3 += 1
-            rep.ob("C04.R3", "[C03.R3] " + o["instance"], o["ok"], o["detail"], o["loc"])
+            rep.ob("C04.R3", "[%s] " % o["rule"] + o["instance"], o["ok"], o["detail"], o["loc"])
     rep.floor("C04.R3", "imported flush obligations (one block per flush, written once, reset afterwards)", n3, 7)
 
     # ------------------------------------------------------------------ R5 rejection inventory
